@@ -70,6 +70,7 @@ int disasm_propeller2(
   int i, l, d, s, r;
   int cond;
   int wz, wc, wcz;
+  int logic = 0;
   int need_effect = 0;
   uint32_t value;
 
@@ -106,6 +107,22 @@ int disasm_propeller2(
     {
       continue;
     }
+
+    // testb / testp (exactly one of wc, wz) share their opcodes with the
+    // bitl / dirl families (both or none: wcz or no effect).
+    if (table_propeller2[n].wc == 1 && table_propeller2[n].wz == 1 &&
+        table_propeller2[n].wcz == 0 && (wc ^ wz) == 0)
+    {
+      continue;
+    }
+
+    if (table_propeller2[n].wc == 0 && table_propeller2[n].wz == 0 &&
+        table_propeller2[n].wcz == 1 && (wc ^ wz) == 1)
+    {
+      continue;
+    }
+
+    logic = table_propeller2[n].logic;
 
     *cycles_min = table_propeller2[n].cycles8_min;
     *cycles_max = table_propeller2[n].cycles8_min;
@@ -350,8 +367,11 @@ int disasm_propeller2(
   if (need_effect != 0)
   {
     if (need_effect == 2) { strcat(operands, ", "); }
-    if (wc == 1) { strcat(operands, "wc"); }
-    if (wz == 1) { strcat(operands, "wz"); }
+    const char *effect_c[] = { "wc", "andc", "orc", "xorc" };
+    const char *effect_z[] = { "wz", "andz", "orz", "xorz" };
+
+    if (wc == 1) { strcat(operands, effect_c[logic]); }
+    if (wz == 1) { strcat(operands, effect_z[logic]); }
     if (wcz == 1) { strcat(operands, "wcz"); }
   }
 
